@@ -17,6 +17,12 @@ FIRST = {  # result of the FIRST run of my checks against the seed, recorded whe
     "C03-6": "missed", "C04-5": "missed", "C05-5": "missed", "C07-5": "missed", "C07-6": "other property only (C18.f)", "C09-5": "other property only (C06.f)",
     "C09-6": "other property only (C08.g, C15.c, C17.f)", "C10-5": "missed", "C11-5": "missed", "C12-5": "missed", "C13-6": "missed", "C14-6": "missed", "C16-5": "missed",
     "C17-5": "other property only (C02.c, C08.g)", "C17-6": "other property only (C02.d)", "C20-5": "missed",
+    # wave 5 (ids -7 / -8): first run = the checks frozen at the commit the wave was launched from (aa0ef0e), measured serially with /tmp/first_run.sh
+    "C01-7": "missed", "C01-8": "missed", "C02-7": "other property only (C12.a)", "C02-8": "other property only (C03.f, C14.e, C18.h)", "C03-8": "missed", "C04-8": "missed",
+    "C05-8": "missed", "C06-8": "missed", "C07-7": "missed", "C07-8": "missed", "C08-7": "other property only (C02.h, C09.d, C10.m, C17.f)", "C08-8": "missed",
+    "C09-7": "other property only (C01.j, C06.a, C15.k)", "C09-8": "other property only (C06.b)", "C10-7": "missed", "C10-8": "missed", "C11-8": "missed", "C12-8": "missed",
+    "C13-7": "missed", "C14-7": "missed", "C14-8": "missed", "C15-7": "missed", "C15-8": "missed", "C17-7": "other property only (C02.g, C03.d, C15.a, C18.e)",
+    "C17-8": "other property only (C16.b2)", "C18-8": "other property only (C14.e)", "C19-7": "missed", "C19-8": "missed", "C20-8": "other property only (C07.f)",
 }
 ADDED = {"C01-2": "C01.d fresh-only cursor", "C02-2": "C09.d/C02.h owner re-arm protocol", "C04-1": "C04.b children-before-clear", "C04-2": "C04.g accessor family",
          "C05-2": "C05.e2 ring re-base", "C14-2": "C14.f unconditional owner stop", "C16-1": "C16.b2 conflating pending flag", "C16-2": "C16.h (= C17.a table)",
@@ -38,7 +44,16 @@ ADDED = {"C01-2": "C01.d fresh-only cursor", "C02-2": "C09.d/C02.h owner re-arm 
          "C07-6": "C07.h shares C18.f", "C09-5": "C09.k (C06.f shared into C09)", "C09-6": "C09.j (C15.c shared into C09)", "C10-5": "C10.n membership scans (slot_live)",
          "C11-5": "C11.f2 leaf containers reset / shrunk together", "C12-5": "C12.m sampling decisions test valid()", "C13-6": "C13.p modified-slot predicate = export scan during a retarget",
          "C14-6": "C14.j lookup before active_slot.reset()", "C16-5": "C16.k stop protocol of push_source_stop", "C17-5": "C17.h (C02.c shared into C17)", "C17-6": "C17.g (C02.d shared into C17)",
-         "C20-5": "C20.m no-effect only after the modified map was tested"}
+         "C20-5": "C20.m no-effect only after the modified map was tested",
+         "C01-7": "C01.h table extended to the availability tail (paused dependency)", "C01-8": "C01.k mesh subscribe gate", "C02-7": "C02.n (C12.a shared into C02)",
+         "C02-8": "C02.o (C03.f shared into C02)", "C03-8": "C03.k selector collectors number in input space", "C04-8": "C04.k guard not stronger than boundness",
+         "C05-8": "C05.m decision table of TSD record_child_modified", "C06-8": "C06.j capture de-dup by same_source_as only", "C07-7": "C07.k lockset of TypeRecordRegistry",
+         "C07-8": "C07.l GraphBuilder mutators discard cached types", "C08-7": "C08.i (C09.d shared into C08)", "C08-8": "C12.n key recorded after retirement / C08.h",
+         "C09-7": "C09.o (C06.a shared into C09)", "C09-8": "C09.p (C06.b shared into C09)", "C10-7": "C10.o bitmap positions (rules.bitmap_positions)", "C10-8": "C10.p heap order: deadline first",
+         "C11-8": "C11.l structural_leaves holds dense indices", "C12-8": "C12.o captures re-targeted through the shared slot table", "C13-7": "C13.q emptiness of a taken reference follows boundness",
+         "C14-7": "C14.k rollback of rebuild_structure resets created combiners", "C14-8": "C14.l recorded clean-up failures are rethrown", "C15-7": "C15.n captured message verbatim",
+         "C15-8": "C15.m derived capture builder carries every builder field", "C17-7": "C17.i (C18.e shared into C17)", "C17-8": "C17.j (C16.b2 shared into C17)",
+         "C18-8": "C18.i (C14.e shared into C18)", "C19-7": "C19.l is-a direction", "C19-8": "C19.l input matcher keeps input semantics at every depth", "C20-8": "C20.n (C07.f shared into C20)"}
 rows = []
 for d in sorted(glob.glob("/verif/seeded/*/meta.json")):
     m = json.load(open(d))
@@ -62,12 +77,15 @@ print("\n".join(rows))
 n = len(rows)
 caught = sum(1 for r in rows if "| caught |" in r)
 w4 = [r for r in rows if r.split("|")[1].strip().endswith(("-5", "-6"))]
+w5 = [r for r in rows if r.split("|")[1].strip().endswith(("-7", "-8"))]
 print(f"\nTotals: {n} seeded changes kept (each confirmed by me); first run: {caught} reported by the property's own check, "
       f"{sum(1 for r in rows if 'other property only' in r)} only by another property's check, {sum(1 for r in rows if 'exit 2' in r)} analysis error (exit 2), "
       f"{sum(1 for r in rows if '| missed |' in r)} missed; now all {n} are reported by their own property's check "
       f"({sum(1 for d in glob.glob('/verif/seeded/*/meta.json') if json.load(open(d)).get('detected_by_own_property'))} verified by tools/keep_seed.py). "
       f"Wave 4 alone ({len(w4)} changes, ids -5 / -6): first run {sum(1 for r in w4 if '| caught |' in r)} by the own check, "
-      f"{sum(1 for r in w4 if 'other property' in r)} only by another property's check (one of them with an exit 2 in its own), {sum(1 for r in w4 if '| missed |' in r)} missed.")
+      f"{sum(1 for r in w4 if 'other property' in r)} only by another property's check (one of them with an exit 2 in its own), {sum(1 for r in w4 if '| missed |' in r)} missed. "
+      f"Wave 5 ({len(w5)} changes, ids -7 / -8, authors told to avoid every function an earlier seed touched): first run {sum(1 for r in w5 if '| caught |' in r)} by the own check, "
+      f"{sum(1 for r in w5 if 'other property' in r)} only by another property's check, {sum(1 for r in w5 if '| missed |' in r)} missed.")
 
 txt = _out.getvalue()
 if "--write" in sys.argv:
